@@ -5,7 +5,7 @@ import numpy as np
 def run(req):
     fn = req["fn"]
     a = req.get("args", {})
-    if fn.startswith("mri."):
+    if fn.startswith("mri.") or fn == "wavelet.check":
         import replay_mri
         return replay_mri.run(req)
     if fn in ("trajgrad.trap_grad", "trajgrad.min_trap_grad"):
